@@ -40,7 +40,32 @@ func genWorld(rt *rapid.T, o worldOpts) World {
 		w.Spec.Strategy = 0
 	}
 	w.Hist = genHist(rt)
-	if rapid.IntRange(0, 9).Draw(rt, "constructed") < o.constructed {
+	if o.constructed > 0 && rapid.IntRange(0, 7).Draw(rt, "heldRollout") == 0 {
+		// a rollout held by the partition: pods at or above it updated and Ready, pods below it at the previous
+		// (current) revision, one of them possibly Failed / Succeeded / unready
+		w.Spec.Strategy = 0
+		if w.Spec.R < 2 {
+			w.Spec.R = int32(rapid.IntRange(2, 4).Draw(rt, "heldR"))
+		}
+		w.Spec.Slots = nil
+		w.Spec.Partition = int32(rapid.IntRange(1, int(w.Spec.R)).Draw(rt, "heldPartition"))
+		if len(w.Hist) < 2 {
+			w.Hist = []int{w.Hist[0], (w.Hist[0] + 1) % 4}
+		}
+		n := len(w.Hist)
+		w.CurRev = n - 2
+		odd := rapid.IntRange(0, int(w.Spec.Partition)-1).Draw(rt, "heldOdd")
+		for ord := 0; ord < int(w.Spec.R); ord++ {
+			pp := PodP{Ord: ord, Phase: 3, Rev: n - 1}
+			if ord < int(w.Spec.Partition) {
+				pp.Rev = n - 2
+				if ord == odd {
+					pp.Phase = rapid.SampledFrom([]int{4, 5, 4, 2, 3}).Draw(rt, "heldPhase")
+				}
+			}
+			w.Pods = append(w.Pods, pp)
+		}
+	} else if rapid.IntRange(0, 9).Draw(rt, "constructed") < o.constructed {
 		w.Pods = genPods(rt, len(w.Hist), o.orphans)
 		if len(w.Hist) > 1 && rapid.Bool().Draw(rt, "repointCurrent") {
 			w.CurRev = rapid.IntRange(0, len(w.Hist)-1).Draw(rt, "curRev")
@@ -53,6 +78,7 @@ func genWorld(rt *rapid.T, o worldOpts) World {
 		}
 	}
 	w.Ops = genOps(rt, o.maxOps, o.weights, o.faults, o.interference)
+	w.CloseLag = rapid.SampledFrom([]int{0, 0, 1, 1, 2}).Draw(rt, "closeLag")
 	return w
 }
 
